@@ -1,5 +1,7 @@
 package main
 
+import "os"
+
 func init() {
 	scenarios["cdp"] = &Scenario{
 		Name: "cdp", NActors: cdpActors, Draw: drawCdpConfig,
@@ -13,6 +15,29 @@ func init() {
 		Name: "cdp+export", NActors: cdpActors, Draw: drawCdpConfig,
 		Setup: func(w *World) { setupCdp(w); w.warmOracle() },
 		Gens:  c20Gens(cdpGensAll), PBlock: 220,
+	}
+	scenarios["cdp+inject"] = &Scenario{
+		Name: "cdp+inject", NActors: cdpActors, Draw: drawCdpConfig,
+		Setup: func(w *World) { setupCdp(w); w.warmOracle() },
+		Gens:  c15Gens(func(w *World) []OpGen { return append(cdpGensAll(w), c15EnvGens()...) }), PBlock: 220,
+	}
+	props["C15"] = &PropSpec{
+		ID: "C15", Level: "fault_enumeration", Scenarios: []string{"cdp+inject"}, PanicIsViolation: true,
+		NewHarness: func(spec *PropSpec) Harness {
+			n := 250
+			if os.Getenv("VERIF_TIER") == "thorough" {
+				n = 600
+			}
+			return &c15Harness{stdHarness: stdHarness{spec: spec}, maxInject: n}
+		},
+		Oracles:    func(w *World) []Oracle { return nil },
+		TweakCfg:   func(r *Rng, cfg *Config) { cfg.Knobs["env_faults"] = int64(r.Intn(2)) },
+		Quick:      Budget{Runs: 48, MaxEvents: 120},
+		Thorough:   Budget{Runs: 1500, MaxEvents: 300},
+		Essential:  []string{"c15.block_enumerated"},
+		BatchProbe: []string{"c15.block_enumerated", "c15.units_observed"},
+		Rule: "states come from seeded simulated runs; at PRNG-chosen points the whole app's EndBlocker+BeginBlocker are executed on a discarded branch with hook H1 observing every ApplyFuncIfNoError unit, once fault-free and then once per (unit, store access) pair with that access failing (all pairs up to a cap, evenly spaced subset beyond it, flagged); per injection: nothing escapes the hook, the failed unit reports failure, every store equals its state at unit entry, and all units of the same loop are still entered; every block of every run is also executed under recover (an escaped panic is a violation); one case = one run; distinct = distinct digest of the event stream; non-trivial = at least one block was enumerated",
+		Assume: []string{"a store fault is modelled as a panic raised at a gas-meter call of that access (every KV access goes through the context gas meter)", "work done outside ApplyFuncIfNoError units is only covered by the no-escaped-panic check"},
 	}
 	props["C20"] = &PropSpec{
 		ID: "C20", Level: "exploration", Scenarios: []string{"cdp+export"},
